@@ -592,12 +592,14 @@ pub struct TextStyle {
     pub upper_hex: bool,
     /// whitespace after the root value: 0 none, 1 "\n", 2 " ", 3 "\r\n\t "
     pub trail: u8,
+    /// whitespace before the root value, never a space (which the format cannot tell from a scalar header): 0 none, 1 "\n", 2 "\t", 3 "\r\n"
+    pub lead: u8,
     /// how doubles are written: 0 shortest with a fraction ("0.5", "1e300"), 1 exponent form ("5e-1"), 2 upper-case exponent with sign ("5E-1", "1E+300")
     pub num_form: u8,
 }
 
 pub fn style_to_json(s: &TextStyle) -> serde_json::Value {
-    serde_json::json!({"ws": s.ws, "escape_non_ascii": s.escape_non_ascii, "escape_slash": s.escape_slash, "upper_hex": s.upper_hex, "trail": s.trail, "num_form": s.num_form})
+    serde_json::json!({"ws": s.ws, "escape_non_ascii": s.escape_non_ascii, "escape_slash": s.escape_slash, "upper_hex": s.upper_hex, "trail": s.trail, "lead": s.lead, "num_form": s.num_form})
 }
 
 pub fn style_from_json(j: &serde_json::Value) -> TextStyle {
@@ -607,6 +609,7 @@ pub fn style_from_json(j: &serde_json::Value) -> TextStyle {
         escape_slash: j["escape_slash"].as_bool().unwrap_or(false),
         upper_hex: j["upper_hex"].as_bool().unwrap_or(false),
         trail: j["trail"].as_u64().unwrap_or(0) as u8,
+        lead: j["lead"].as_u64().unwrap_or(0) as u8,
         num_form: j["num_form"].as_u64().unwrap_or(0) as u8,
     }
 }
@@ -664,7 +667,7 @@ fn ws(st: &TextStyle, slot: usize, out: &mut String) {
 
 /// RFC 8259 text for a tree without NaN/Inf. Never starts with whitespace.
 pub fn to_text(v: &MVal, st: &TextStyle) -> String {
-    let mut s = String::new();
+    let mut s = String::from(["", "\n", "\t", "\r\n"][(st.lead % 4) as usize]);
     let mut slot = 0usize;
     write_text(v, st, &mut slot, &mut s);
     s.push_str(["", "\n", " ", "\r\n\t "][(st.trail % 4) as usize]);
